@@ -855,7 +855,7 @@ fn read_vs_slice(b: &[u8], ctx: &mut Ctx, out: &mut Vec<PairDiff>) -> u32 {
     variable
 }
 
-fn check(start: Start, b: &[u8], ranges: &[usize], ctx: &mut Ctx) -> Result<(), Failure> {
+pub fn check(start: Start, b: &[u8], ranges: &[usize], ctx: &mut Ctx) -> Result<(), Failure> {
     let mut diffs: Vec<PairDiff> = vec![];
     let input = || {
         let mut v = input_json(start, b);
@@ -900,11 +900,18 @@ impl Property for C06 {
     fn id(&self) -> &'static str {
         "C06"
     }
+    fn post(&self, tier: Tier, seed: u64, root: &std::path::Path) -> Result<Value, Failure> {
+        if tier == Tier::Thorough {
+            crate::fuzzapi::run_fuzz_campaign("C06", root, seed, 400_000, 8)
+        } else {
+            Ok(Value::Null)
+        }
+    }
     fn tape_len(&self) -> usize {
         640
     }
     fn cases(&self, tier: Tier) -> u64 {
-        tier.pick(250_000, 4_000_000)
+        tier.pick(1_000_000, 16_000_000)
     }
     fn run_tape(&self, tape: &[u8], ctx: &mut Ctx) -> Result<(), Failure> {
         let c = crate::props::c01::gen_case(tape);
